@@ -1,0 +1,7 @@
+//go:build !verif
+
+package fsutil
+
+import gofs "io/fs"
+
+func verifAfterWalkEntry(string, gofs.DirEntry) {}
